@@ -106,7 +106,9 @@ def job(arg):
 
     def on_step(model, s, act, spec_ret, t, hist):
         out['keys'].add(hash((s, json.dumps(act, sort_keys=True))))
-        variant = 'str' if act['op'] == 'set_value' else rnd.choice(VARIANTS)
+        # (a model loaded from a file has no workbook, hence no active sheet)
+        variant = 'str' if act['op'] == 'set_value' else rnd.choice(
+            [x for x in VARIANTS if src != 'Loaded' or not x.startswith('nosheet')])
         if act['op'] == 'set_value':
             status, got = model.do(act)
             if status == 'exc':
@@ -152,6 +154,7 @@ def run(tier, seed):
             for src in ('NoData', 'Stored'):
                 jobs.append((name, [2], ['A1'], src, seed, 120))
         jobs.append(('offset_obs', [2], ['B3'], 'NoData', seed, 120))
+        jobs.append(('cse_obs', [2], ['A1'], 'Loaded', seed, 120))     # D63
         jobs.append(('cse_opq', [2], ['A1'], 'NoData', seed, 120))
         jobs.append(('table_opq', [5], ['A2'], 'NoData', seed, 120))
     else:
